@@ -92,6 +92,8 @@ func (r *Run) Execute(or OracleSet) (err error) {
 	}
 	r.startupReloads = r.ha.Reloads
 	r.startupCmds = len(r.ha.AdminCmds)
+	r.startupDone = true
+	r.afterLoad()
 	r.syncPoint("startup")
 	for i, op := range cfg.Ops {
 		r.step = i + 1
@@ -109,6 +111,11 @@ func (r *Run) applyOp(op Op) error {
 	r.trace("OP %s", op)
 	switch op.Type {
 	case "apply":
+		if r.or.NoReload && r.kube.Truth(op.Kind, op.Key) == nil {
+			// content-neutral histories only re-apply existing objects (a minimisation
+			// candidate that dropped the object from the world is not such a history)
+			return invalidRun("neutral update of an object that does not exist: " + op.Kind + " " + op.Key)
+		}
 		obj := decodeObj(op.Kind, op.Obj)
 		r.kube.Apply(op.Kind, op.Key, obj)
 	case "delete":
@@ -192,6 +199,8 @@ func (r *Run) runTask(g *rt.ParkedGate) {
 	}
 	r.reconciles++
 	r.cur = recOutcome{id: r.reconciles}
+	r.capLoaded = r.ha.Loaded
+	r.reloadPendingBefore = r.reloadPending
 	cmds0, reloads0, faults0 := len(r.ha.AdminCmds), r.ha.Reloads, len(r.firedFaults)
 	pendingBefore := r.kube.Pending()
 	r.rt.Disk.TakeLog()
@@ -243,6 +252,9 @@ func (r *Run) afterReconcile(informersLagging bool) {
 		// applied (or judged a no-op) without a reload: running state must equal the files
 		r.checkEffective(or.Property, "after-dynamic-update")
 	}
+	if or.Capacity && !r.cur.failed && r.capLoaded != nil {
+		r.checkCapacity()
+	}
 	if or.NoReload && r.startupReloads > 0 {
 		if r.ha.Reloads > r.startupReloads || r.reloadPending {
 			r.violate(&Violation{Property: "C11", Oracle: "no-reload", Class: "reload-on-renotify",
@@ -256,7 +268,9 @@ func (r *Run) afterReconcile(informersLagging bool) {
 
 // afterLoad runs after HAProxy (re)loaded a configuration.
 func (r *Run) afterLoad() {
-	if r.or.Capacity && r.ha.Loaded != nil {
+	// loads during start-up may render a configuration computed before the global ConfigMap
+	// was delivered; the slot invariants are checked from the start-up sync point on
+	if r.or.Capacity && r.ha.Loaded != nil && r.startupDone {
 		r.checkSlots()
 	}
 }
